@@ -32,6 +32,7 @@ def repo_path():
 
 
 GOCACHE_CAP = 6 << 30
+_GOCACHE_LOCK = None
 
 
 def _private_gocache():
@@ -42,22 +43,40 @@ def _private_gocache():
         return None
     d = os.environ.get("VERIF_GOCACHE") or os.path.join(VERIF, "work", "gocache")
     os.makedirs(d, exist_ok=True)
+    global _GOCACHE_LOCK
+    if _GOCACHE_LOCK is not None:
+        return d
+    # Checks may run side by side.  Every check process holds a SHARED lock on the cache for as long as it lives; the
+    # cache is emptied only by a process that gets the lock EXCLUSIVELY, i.e. while no other check is using it (emptying
+    # it under a running `go build` made that build fail: three false "broken" reports in a parallel sweep).
+    import fcntl
+    lock = open(d + ".lock", "a+")
     stamp = os.path.join(d, ".size_checked")
     try:
         if not os.path.exists(stamp) or time.time() - os.path.getmtime(stamp) > 600:
-            open(stamp, "w").write("")
-            total = 0
-            for root, _dirs, files in os.walk(d):
-                for f in files:
-                    try:
-                        total += os.path.getsize(os.path.join(root, f))
-                    except OSError:
-                        pass
-            if total > GOCACHE_CAP:
-                shutil.rmtree(d, ignore_errors=True)
-                os.makedirs(d, exist_ok=True)
+            try:
+                fcntl.flock(lock, fcntl.LOCK_EX | fcntl.LOCK_NB)
+            except OSError:
+                pass                                   # somebody is building: leave the cache alone this time
+            else:
+                open(stamp, "w").write("")
+                total = 0
+                for root, _dirs, files in os.walk(d):
+                    for f in files:
+                        try:
+                            total += os.path.getsize(os.path.join(root, f))
+                        except OSError:
+                            pass
+                if total > GOCACHE_CAP:
+                    shutil.rmtree(d, ignore_errors=True)
+                    os.makedirs(d, exist_ok=True)
     except OSError:
         pass
+    try:
+        fcntl.flock(lock, fcntl.LOCK_SH)               # replaces the exclusive lock, if we held it
+    except OSError:
+        pass
+    _GOCACHE_LOCK = lock                               # kept open (and locked) until the process ends
     return d
 
 
